@@ -1,17 +1,8 @@
 INIT Init
 NEXT Next
 CONSTANTS
-  Signs <- Both
-  Sigs <- SigConv
-  Exps <- ExpConv
-  Precs = {2, 5}
-  UncSigs <- USigConv
-  UncOffs = {3, 5}
-  UncPrecs = {1, 2, 3}
-  Units = {}
-  Convs <- ConvAll
-  UncSrcs = {"arg", "attr"}
-  RomanMax = 0
+  SliceTable <- AllSlices
+  SliceNames = {"conv_q"}
 INVARIANT TypeOK
 INVARIANT RoundCarries
 INVARIANT ModelNumberDenotes
